@@ -221,7 +221,7 @@ func familyKindsExt(family string) []string {
 		return StakeKinds
 	case "alleg", "allegset":
 		return AllegKinds
-	case "eth", "eth5":
+	case "eth", "eth5", "erc20":
 		return EthKinds
 	case "stake":
 		return StakeKinds
